@@ -2,7 +2,7 @@
    the session theorems: what the evidence counts as covered is covered. *)
 Require Import Calc.Sem.
 Require Import Calc.Base Calc.Bytecode Calc.Value Calc.FloatText Calc.Ast Calc.Resolve Calc.Compile Calc.VM
-        Calc.Session Calc.CorrSession Calc.CompileWf
+        Calc.Session Calc.CorrSession Calc.SemSession Calc.CompileWf
         Calc.ExprSem Calc.ExprAssign Calc.ExprLen Calc.ExprSession Calc.LExprSem Calc.StmtSem Calc.StmtRel
         Calc.StmtTop Calc.StmtDef Calc.StmtMixed Calc.StmtStart Calc.CorrFragment.
 Require Import Lia.
@@ -92,4 +92,25 @@ Proof.
   split; [|exact H2].
   apply (checked_start_is_covered _ _ Es).
   eapply Forall_impl; [|exact H1]. intros i [Hi _]. exact Hi.
+Qed.
+
+Lemma session_names_builtins trees : incl other_builtins (session_names trees).
+Proof. intros g H. unfold session_names. apply in_or_app. left. exact H. Qed.
+
+(* and for the Sem-vs-VM theorem: on the two states after the first tree, sem_tree and run_tree agree on the
+   counted prefix as agree says *)
+Theorem covered_prefix2_sound mc0 t1 r :
+  machine_new = Some mc0 ->
+  let st1 := fst (sem_tree sem_init t1) in
+  let mc1 := fst (run_tree false mc0 t1) in
+  let pre := firstn (covered_prefix2 (t1 :: r)) r in
+  agree [] [] (tab_of (s_globals st1)) (self_tab mc1) st1 mc1 (map item_of pre) /\ map item_tree (map item_of pre) = pre.
+Proof.
+  intros Hm. cbv zeta. unfold covered_prefix2. rewrite Hm.
+  destruct (start_ok2 (fst (sem_tree sem_init t1)) (fst (run_tree false mc0 t1))) eqn:Es; [|split; [exact I|reflexivity]].
+  set (funs := match lambda_def t1 with Some f => [f] | None => [] end).
+  destruct (prefix_ok_sound (session_names (t1 :: r)) r funs) as [H1 H2].
+  { intros t f k Hin Hl. exact (session_names_has (t1 :: r) t f k (or_intror Hin) Hl). }
+  split; [|exact H2].
+  exact (checked_pair_is_covered (session_names (t1 :: r)) _ _ _ Es (session_names_builtins _) H1).
 Qed.
